@@ -138,9 +138,14 @@ class Deref(object):
             return b.get('noreturn') and any(t.ev.get('callee') == '__assert_fail' for t in fn.block_sites(bid))
 
         def on_edge(st, e):
+            r = edge_rel(e)
+            if st in ('null', 'nonnull') and r and is_var(r[0]) and r[0]['name'] in names and const_of(r[2]) == 0 and r[1] in ('==', '!='):
+                # a second test of the same pointer: the contradicting edge cannot be taken
+                if (st == 'null') != (r[1] == '=='):
+                    return None
+                return st
             if st != 'maybe':
                 return st
-            r = edge_rel(e)
             if r and is_var(r[0]) and r[0]['name'] in names and const_of(r[2]) == 0:
                 if r[1] == '!=':
                     return 'nonnull'
